@@ -101,7 +101,7 @@ func execFw(toks []string) string {
 	select {
 	case o := <-resCh:
 		return o
-	case <-time.After(30 * time.Second):
+	case <-time.After(4 * time.Second):
 		return "timeout"
 	}
 }
